@@ -1,6 +1,7 @@
 package main
 
 import (
+	"go/token"
 	"fmt"
 	"go/types"
 	"regexp"
@@ -58,6 +59,11 @@ type optFlow struct {
 	set        *ssa.Call         // the setter call that consumes the given value
 	hasDefault bool
 	why        string
+	// select-helper shape: `Set(valueOr(f, DEFAULT))` with a NEW two-exit helper; decided
+	// inside the helper (givenOnlyWhenPresent / presentIsGiven are then final)
+	viaHelper            bool
+	givenOnlyWhenPresent bool
+	presentIsGiven       bool
 }
 
 func optionalInit(ci *FC, f, def string) optFlow {
@@ -89,8 +95,65 @@ func optionalInit(ci *FC, f, def string) optFlow {
 		}
 		return fl
 	}
-	// one call on a local variable
+	// one call whose argument is selected by a new helper
 	call := single[0]
+	argv := call.Call.Args[2]
+	if ld, ok := argv.(*ssa.UnOp); ok && ld.Op == token.MUL {
+		// a local that is assigned exactly once
+		if alloc, ok := ld.X.(*ssa.Alloc); ok {
+			var stores []*ssa.Store
+			for _, ref := range *alloc.Referrers() {
+				if st, ok := ref.(*ssa.Store); ok && st.Addr == ssa.Value(alloc) {
+					stores = append(stores, st)
+				}
+			}
+			if len(stores) == 1 {
+				argv = stores[0].Val
+			}
+		}
+	}
+	if hc, ok := argv.(*ssa.Call); ok {
+		if h := hc.Call.StaticCallee(); ci.p.newHelper(h) {
+			hx := ci.p.tx(h)
+			henv := ci.callEnv(ci.x, nil, hc)
+			var rets []vret
+			for _, hr := range allReturns(h) {
+				rets = append(rets, ci.expandReturn(h, hx, henv, hr, 1)...)
+			}
+			var gv, dv []vret
+			for _, vr := range rets {
+				switch {
+				case len(vr.vals) == 1 && vr.vals[0] == givenT:
+					gv = append(gv, vr)
+				case len(vr.vals) == 1 && vr.vals[0] == def:
+					dv = append(dv, vr)
+				default:
+					fl.why = fmt.Sprintf("helper %s can return %v", funcName(h), vr.vals)
+					return fl
+				}
+			}
+			if len(gv) == 0 || len(dv) == 0 {
+				fl.why = fmt.Sprintf("helper %s returns the given value on %d exits and the default on %d", funcName(h), len(gv), len(dv))
+				return fl
+			}
+			fl.viaHelper, fl.given, fl.set, fl.hasDefault = true, call, call, true
+			present := []Atom{A("!(nil == p2." + f + ")")}
+			absent := []Atom{A("(nil == p2." + f + ")")}
+			fl.givenOnlyWhenPresent, fl.presentIsGiven = true, true
+			for _, vr := range gv {
+				if !cutQuery(vr.cfn, vr.ifs, present, []ssa.Instruction{vr.at}).Holds {
+					fl.givenOnlyWhenPresent = false
+				}
+			}
+			for _, vr := range dv {
+				if !cutQuery(vr.cfn, vr.ifs, absent, []ssa.Instruction{vr.at}).Holds {
+					fl.presentIsGiven = false
+				}
+			}
+			return fl
+		}
+	}
+	// one call on a local variable
 	want := phiOf([]*Term{mk("const", givenT), mk("const", def)}).String()
 	got := ci.args(call)[1]
 	if got != want {
@@ -208,6 +271,12 @@ func runC17(p *Prog, r *Report, tier string) {
 				uses = true
 			}
 		}
+		if def, ok := genesisDefaults[f]; ok && !uses {
+			// through a selecting helper: the given value is one of the helper's results
+			if fl := optionalInit(ci, f, def); fl.viaHelper && fl.given != nil {
+				uses = true
+			}
+		}
 		r.check(uses, "field-coverage", "field-coverage/init/"+f, ci.pos(), "InitGenesis stores genState."+f+" into "+region,
 			fmt.Sprintf("InitGenesis does not store genState.%s into region %s (values written there: %v)", f, region, vals))
 		if strings.HasSuffix(f, "List") {
@@ -238,7 +307,12 @@ func runC17(p *Prog, r *Report, tier string) {
 			r.check(flow.hasDefault, "defaults", "defaults/init/"+f, ci.pos(), "absent "+f+" defaults to "+def, fmt.Sprintf("default for absent %s is not %s (%s; values: %v)", f, def, flow.why, vals))
 			// the given value is used exactly when the field is non-nil
 			g := []Atom{A("!(nil == p2." + f + ")")}
-			if flow.given != nil {
+			if flow.viaHelper {
+				r.check(flow.givenOnlyWhenPresent, "defaults", "defaults/InitGenesis/given-"+f+"-only-when-present", p.instrPos(flow.given),
+					"the selecting helper returns the given "+f+" only when it is present", "the selecting helper can return *"+f+" when it is nil, or the given value without testing presence")
+				r.check(flow.presentIsGiven, "defaults", "defaults/InitGenesis/present-"+f+"-is-stored", p.instrPos(flow.given),
+					"a present "+f+" is what gets stored", "the selecting helper can return the default although "+f+" is present")
+			} else if flow.given != nil {
 				ci.requireCut("defaults", "given-"+f+"-only-when-present", g, []ssa.Instruction{flow.given})
 				r.check(flow.presentUsesGiven(ci, g), "defaults", "defaults/InitGenesis/present-"+f+"-is-stored", p.instrPos(flow.given),
 					"a present "+f+" is what gets stored", "a present "+f+" can be replaced by the default before it is stored")
